@@ -16,6 +16,7 @@ PROPS = {
         not_yet_proved=[],
     ),
     "C02": dict(
+        extra_modules=["CstModel.Proofs.TokenNav"],
         runs=runs([("red", "release")],
                   [("red", "release"), ("red", "debug"), ("red", "lasso")]),
         tags=["C02"],
@@ -26,8 +27,8 @@ PROPS = {
              "element; + random programs (20-80 requests) on trees of up to 150 elements, depth up to 60, through the plain and the resolved API "
              "alternately; non-trivial = the case returned at least one element; distinct = distinct op text",
         assumptions=["total text < 2^32 bytes (offsets are u32 in the code, Nat in the model)",
-                     "history theorem covers the 16 request kinds of C02.NavOp (+ indexed look-ups with the documented argument); token navigation and the offset/range queries are compositions of these and are tied by correspondence, their invariance proof is listed under not_yet_proved"],
-        not_yet_proved=["keeps-lemmas for first_token/last_token/next_token/prev_token, token_at_offset, covering_element (compositions of proven primitive requests)"],
+                     "history theorem covers the 22 request kinds of C02.NavOp (element/node hops, iterators, sibling chains, walks, first/last/next/prev token, token_at_offset, covering_element, with any arguments) + the indexed look-ups with the documented argument"],
+        not_yet_proved=[],
     ),
     "C03": dict(
         extra_modules=["CstModel.Proofs.Walk"],
@@ -52,8 +53,8 @@ PROPS = {
              "spread over two trees of one cache; every tree is dumped at creation and re-dumped after all later builds; allocation identity "
              "(verif_addr hook) is compared with the model's ghost ids; non-trivial = some small node was answered from the cache; distinct = distinct op text",
         assumptions=["total text < 2^32 bytes and < 2^32 children (the crate's u32 domain)",
-                     "effectiveness theorems (token_shared/node_shared) are stated for an immediately repeated request; stability of node entries under *other* requests is tied by correspondence (ghost ids vs addresses), not yet proved"],
-        not_yet_proved=["node_entry_stable: a node-cache entry keeps answering its query after arbitrary other insertions (needs symmetry/transitivity of structural equality)"],
+                     "effectiveness: token_shared / node_shared for an immediately repeated request, token_entry_stable / node_entry_stable(_impl) for a request repeated after any number of other requests (cache entries are unique up to structural equality and only ever added)"],
+        not_yet_proved=[],
     ),
     "C05": dict(
         extra_modules=["CstModel.Proofs.Conc"],
@@ -91,7 +92,7 @@ PROPS = {
                         "exactly-once is checked by the instrumentation oracle)"],
     ),
     "C07": dict(
-        extra_modules=["CstModel.Proofs.MemModel"],
+        extra_modules=["CstModel.Proofs.MemModel", "CstModel.Proofs.MemSlots"],
         tags=["C07"],
         runs=runs([("conc:lifecycle", "release"), ("miri:all", "miri")],
                   [("conc:lifecycle", "release"), ("conc:traverse", "release"), ("conc:data", "release"), ("miri:all", "miri")]),
@@ -105,11 +106,12 @@ PROPS = {
              "scheduler had a real choice / every Miri run; distinct = distinct trace",
         assumptions=["the model covers the release/acquire fragment: RMWs on one counter, hand-over of handles through synchronising operations of safe Rust; locks "
                      "(parking_lot) and Arc (triomphe, std) are assumed data-race free themselves",
-                     "accesses by handle holders are assumed not to conflict with each other (they are reads of immutable parts or go through the slot / data locks): "
-                     "that half is checked dynamically (lock-set discipline under the scheduler, Miri), not proved -- see not_yet_proved",
+                     "`Model/MemModel` (the one the scheduler traces are replayed through) treats accesses of handle holders as non-conflicting among themselves; `Model/MemSlots` "
+                     "removes that assumption for the child slots (slot locks + references handed out of a slot + teardown) and is proved race free for all interleavings "
+                     "(`slot_accesses_race_free`); it is tied to the source by the extracted lock modes (`slot_facts`) and by the lock-set check on every scheduled execution",
                      "Miri explores a handful of schedules per program; it is the search for a failing execution, the theorem is what covers all interleavings"],
-        not_yet_proved=["slot_accesses_race_free: vector-clock treatment of the per-slot locks and of references handed out of a slot (install happens-before every use); "
-                        "currently: lock-set check on every explored execution + Miri"],
+        not_yet_proved=["the per-node data lock is not in the happens-before model: the value lives inside its `RwLock` (extracted fact `dataSlotInsideLock`), so safe Rust cannot "
+                        "reach it without the lock; green elements, interners and caches rely on triomphe/std `Arc`, lasso and `&mut` exclusivity (Miri programs only)"],
     ),
     "C08": dict(
         runs=runs([("probe:c08", "rustc")], [("probe:c08", "rustc")]),
@@ -162,8 +164,8 @@ PROPS = {
              "+ the first offset / range outside the precondition (must panic); + 60 random queries on each of 200 (thorough 2000) random trees; plain and resolved API; "
              "non-trivial = a query inside the precondition was answered; distinct = distinct op text",
         assumptions=["theorems cover covering_element (contains the range, never panics inside the precondition); token_at_offset is tied by the exhaustive correspondence and the brute-force oracle, its totality/specification proof is listed under not_yet_proved"],
-        not_yet_proved=["tao_total / tao_spec: token_at_offset never reaches its unwrap / assert / unreachable! inside the precondition and classifies none/single/between by the non-empty tokens touching the offset (needs: at most two non-empty children contain an offset; edge_single)",
-                        "cover_deepest: no child of the returned element contains the range"],
+        not_yet_proved=["tao_complete: the token(s) returned are the ONLY non-empty tokens of the sub-tree whose closed range contains the offset (tao_spec proves that the answer "
+                        "is such a token / such a meeting pair, and that `Between` occurs only strictly inside the node; uniqueness follows from the tiling but is not stated as a theorem)"],
     ),
     "C14": dict(
         runs=runs([("replace", "release")], [("replace", "release"), ("replace", "debug"), ("replace", "lasso")]),
